@@ -229,14 +229,18 @@ def main():
     a = ap.parse_args()
     seed = int(os.environ.get("VERIF_SEED", "1"))
     tier = "thorough" if a.tier.startswith("t") else "quick"
+    if a.replay:
+        # every generated case derives from (property, seed, tier): replaying = re-running that exact stream against the current tree;
+        # the recorded case is printed first so that the reader sees what is being looked for
+        rp = json.load(open(a.replay))
+        seed, tier = int(rp.get("seed", seed)), rp.get("tier", tier)
+        print("REPLAY property=%s seed=%d tier=%s what=%s" % (rp.get("property", a.prop), seed, tier, str(rp.get("what") or rp.get("kind"))[:200]))
+        print("REPLAY case=%s" % json.dumps(rp.get("case"))[:2000])
     ctx = Ctx(a.prop, tier, seed, a.replay)
     code = 2
     try:
         ctx.setup_lean()
         mod = importlib.import_module("props.%s" % a.prop.lower())
-        if a.replay:
-            rp = json.load(open(a.replay))
-            ctx.replay_case = rp.get("case")
         code = mod.run(ctx)
     except Exception:
         traceback.print_exc()
